@@ -70,6 +70,7 @@ ISO_META = {
 }
 MC_ISOS = ["I1", "I2", "I3"]
 EXTRA_COLUMNS = {}     # isotherm key -> names of additional float data columns
+LARGE_POINTS = {}      # isotherm key -> number of points (objects are built once per Session and reused)
 
 
 ALL_TRAITS = ["registry_autoinsert", "iso_type_leak", "real_affinity", "type_overwrite_noop", "no_ipt_table"]
@@ -123,6 +124,14 @@ def make_isotherm(key):
     # in a fresh session the name resolves to a property-less Adsorbate, content "a0"
     common = dict(material=make_material(mk, mv), adsorbate=NAMES["ads"][ak],
                   temperature=77.0 + len(key) + int(key[1:]) * 1.5, **units, **ISO_META[key])
+    if kind == "point" and key in LARGE_POINTS:
+        import numpy
+        p = numpy.linspace(0.001, 0.987654321, LARGE_POINTS[key])
+        ld = numpy.sqrt(p) * 3.123456789
+        df = pandas.DataFrame({"pressure": p, "loading": ld})
+        for j, c in enumerate(EXTRA_COLUMNS.get(key, [])):
+            df[c] = ld * (1.000001 + j)
+        return pygaps.PointIsotherm(isotherm_data=df, pressure_key="pressure", loading_key="loading", **common)
     if kind == "point":
         n = int(key[1:])
         df = pandas.DataFrame({
@@ -201,6 +210,7 @@ class Session:
     def __init__(self, scratch, deep=False):
         import pygaps
         self.deep = deep
+        self._heavy = {}
         import pygaps.parsing.sqlite as ps
         from pygaps.utilities.sqlite_db_creator import db_create
         self.pygaps = pygaps
@@ -217,7 +227,7 @@ class Session:
         self.iso_expected = {}
         for k in ISOS:
             try:
-                iso = make_isotherm(k)
+                iso = self.build(k)
                 self.iso_ids[k] = iso.iso_id
                 self.iso_expected[k] = expected_iso_rows(iso)
             except Exception as e:  # pragma: no cover
@@ -244,13 +254,21 @@ class Session:
             shutil.copyfile(self.template, p)
             self.paths[d] = p
         self.reset_registries()
-        self.isos = {k: make_isotherm(k) for k in ISOS}
+        self.isos = {k: self.build(k) for k in ISOS}
         self._cache = {}
+
+    def build(self, k):
+        """Fixture isotherm k; the large ones are built once and reused (uploads do not modify them)."""
+        if k not in LARGE_POINTS:
+            return make_isotherm(k)
+        if k not in self._heavy:
+            self._heavy[k] = make_isotherm(k)
+        return self._heavy[k]
 
     def new_session(self):
         """The process ends, a new one starts: registries as after import, isotherm objects rebuilt by the user."""
         self.reset_registries()
-        self.isos = {k: make_isotherm(k) for k in ISOS}
+        self.isos = {k: self.build(k) for k in ISOS}
 
     def registry(self):
         ml, al = self.pygaps.MATERIAL_LIST, self.pygaps.ADSORBATE_LIST
@@ -718,18 +736,19 @@ def make_proxy(log, plan_holder, exit_fn=None, probe=None):
             k = c._k
             plan = plan_holder[0]
             kind = _sql_kind(sql)
+            pname, pval = _pragma(sql) if kind == "pragma" else ("", "")
             hit = plan is not None and plan.fault_at == k
             if hit and plan.kind == "exit_before":
                 die(17)
             if hit and plan.kind in ("IntegrityError", "InterfaceError", "OperationalError"):
-                record({"e": "exec", "c": c._n, "k": k, "sql": kind, "fault": plan.kind})
+                record({"e": "exec", "c": c._n, "k": k, "sql": kind, "pname": pname, "pval": pval, "fault": plan.kind})
                 raise getattr(real_sqlite3, plan.kind)(f"injected {plan.kind} at statement {k}")
             try:
                 r = super().execute(sql, *a)
             except real_sqlite3.Error as e:
-                record({"e": "exec", "c": c._n, "k": k, "sql": kind, "fault": "real:" + type(e).__name__})
+                record({"e": "exec", "c": c._n, "k": k, "sql": kind, "pname": pname, "pval": pval, "fault": "real:" + type(e).__name__})
                 raise
-            record({"e": "exec", "c": c._n, "k": k, "sql": kind, "fault": ""})
+            record({"e": "exec", "c": c._n, "k": k, "sql": kind, "pname": pname, "pval": pval, "fault": ""})
             if hit and plan.kind == "exit_after":
                 die(17)
             if hit and plan.kind == "PythonError":
@@ -773,6 +792,15 @@ def make_proxy(log, plan_holder, exit_fn=None, probe=None):
             return conn
 
     return Proxy()
+
+
+def _pragma(sql):
+    """'PRAGMA journal_mode = MEMORY' -> ('journal_mode', 'memory'); a query pragma has value ''."""
+    import re
+    m = re.match(r"\s*PRAGMA\s+(?:\w+\.)?(\w+)\s*(?:=\s*|\(\s*)?['\"]?([\w\-]*)", sql, re.I)
+    if not m:
+        return "", ""
+    return m.group(1).lower(), m.group(2).lower()
 
 
 def _sql_kind(sql):
